@@ -27,7 +27,7 @@ META = {
     'engine': 'coq+extraction+harness',
 }
 
-TRACE = 'trace=openat,write,close,renameat2,renameat,rename,link,unlink,unlinkat'
+TRACE = 'trace=openat,write,close,renameat2,renameat,rename,link,unlink,unlinkat,truncate,ftruncate'
 LINE = re.compile(r'^(\d+)\s+(\w+)\((.*)\)\s+=\s+(-?\d+|\?)(.*)$')
 NAME = re.compile(r'^app\.(\d{4}-\d\d-\d\d)\.(\d+)\.log(\.gz)?$')
 ERRNOS = ('EACCES', 'ENOSPC', 'EIO')
@@ -83,6 +83,8 @@ def read_dir(logdir):
         dates.add(m.group(1))
         if m.group(3):
             try:
+                if len(b) < 18:
+                    raise ValueError('shorter than header + trailer')   # gzip.decompress(b'') == b''
                 recs, whole = parse_records(pygzip.decompress(b))
                 out['G' + m.group(2)] = (whole, recs)
             except Exception:
@@ -199,6 +201,16 @@ def project(trace_path, logdir):
                     e('RENAME:' + paths[1])
             elif paths and paths[0].startswith(pre):
                 e('RENAME:' + ','.join(paths))
+        elif sc == 'truncate':
+            if paths and paths[0].startswith(pre):
+                e('TRUNCATE:' + paths[0][len(pre):])
+        elif sc == 'ftruncate':
+            try:
+                n = int(args.split(',')[0])
+            except ValueError:
+                continue
+            if n in fd:
+                e('TRUNCATE:fd-of-' + ''.join(fd[n]))
         elif sc in ('unlink', 'unlinkat'):
             p = paths[0] if paths else ''
             if not p.startswith(pre):
@@ -276,7 +288,7 @@ def run_config(chk, crash, model, cfgv, stats, pool):
         out = model.ask([Model.h_line(L, N, opts, None, '', recsA), Model.h_line(L, N, opts, None, show_dir(d_tmpl), recsB)])
         toksA, statesA, rest = Model.split_h(out)
         toksB, statesB, _ = Model.split_h(rest)
-        if not same_dir(parse_model_dir(statesA[-1][0]), d_tmpl):
+        if sizesA and not same_dir(parse_model_dir(statesA[-1][0]), d_tmpl):
             chk.broke('model and sink disagree on the directory after the untraced prefix: %s vs %s' % (statesA[-1][0], show_dir(d_tmpl)),
                       dict(base, kind='correspondence'))
             return
@@ -290,7 +302,8 @@ def run_config(chk, crash, model, cfgv, stats, pool):
         d_final, odd2 = read_dir(dry)
         if 'midnight' in odd + odd2:
             stats['skipped_midnight'] += 1; return
-        if rc != 0 or real_toks != model_toks:
+        aligned = rc == 0 and real_toks == model_toks
+        if not aligned:
             chk.broke('trace validation: the mutation system calls of the real history are %s, the model step list is %s' % (
                 ' '.join(real_toks), ' '.join(model_toks)), dict(base, kind='trace', real=real_toks, model=model_toks))
             if rc != 0 or len(real_toks) > 200:
@@ -328,9 +341,11 @@ def run_config(chk, crash, model, cfgv, stats, pool):
             if r['rc'] == 0 or r['toks'][:k] != real_toks[:k] or len(r['toks']) > k + 1:
                 chk.broke('crash injection did not stop the process before step %d (%s)' % (k, real_toks[k]), dict(rep, kind='injector', got=r['toks']))
                 continue
-            mdir, mgone = statesB[k]
+            # when the real step list is not the model's, crash points cannot be aligned: no directory comparison,
+            # and the oracle gets everything the model's retention ever removes
+            mdir, mgone = statesB[k] if aligned else (None, statesB[-1][1])
             rep.update(directory_after_crash=show_dir(r['dir']), model_directory=mdir, flushed_ids=r['flushed'])
-            if not same_dir(parse_model_dir(mdir), r['dir']):
+            if aligned and not same_dir(parse_model_dir(mdir), r['dir']):
                 stats['crash_dir_mismatch'] += 1
                 chk.broke('directory after a kill before step %d (%s) is %s, model says %s' % (k, real_toks[k], show_dir(r['dir']), mdir),
                           dict(rep, kind='correspondence'))
@@ -352,7 +367,7 @@ def run_config(chk, crash, model, cfgv, stats, pool):
             stats['restarts'] += 1
 
         # (c) single failures of rename / create / unlink / open
-        failable = [k for k, x in enumerate(ev) if x['tok'][0] in 'RZUVO']
+        failable = [k for k, x in enumerate(ev) if re.match(r'^(R\d+|Z\d+|U\d+|V[PG]\d+|O[at])$', x['tok'])]
         jobs = []
         for n, k in enumerate(failable):
             errs = ERRNOS if chk.tier == 'thorough' else (ERRNOS[(n + cfgv['idx']) % 3],)
@@ -407,6 +422,11 @@ def run_config(chk, crash, model, cfgv, stats, pool):
                 if v['rc'] != 0:
                     chk.fail('the process does not survive %s on step %d (%s)' % (en, k, real_toks[k]), rep, kind='failure-crash'); continue
                 rename_syscall_only = ev[k]['tok'][0] == 'R' and v['variant'] == 'syscall'
+                if not aligned:
+                    # the real step list is not the model's: a fault cannot be mapped to a model slot, so there is no
+                    # reference for what retention may remove in this run; no verdict (the trace mismatch is reported)
+                    stats['failures_unjudged'] = stats.get('failures_unjudged', 0) + 1
+                    continue
                 if not rename_syscall_only:
                     mt = handle_closed_filter([t.split(':', 1)[1] for t in toksF])
                     rt = [t + ('+' if ok else '-') for t, ok in v['toks'] if not t.startswith('COPY')]
@@ -453,7 +473,7 @@ def configs(chk):
     for opts in (0, 4, 1, 5):
         for (L, N) in ((8, 3), (8, 0), (20, 2)):
             out.append({'L': L, 'N': N, 'opts': opts, 'sizesA': [7, 7], 'sizesB': [7] * 6})
-    extra = 40 if thorough else 2
+    extra = 40 if thorough else 1
     for _ in range(extra):
         L = rng.choice((8, 15, 20, 30, 64))
         out.append({'L': L, 'N': rng.choice((0, 2, 2, 3, 4, 1, -1)), 'opts': rng.choice((0, 4, 1, 5, 4, 5)),
